@@ -44,3 +44,45 @@ Definition src_DataUpgrade : option codec_desc := Some {|   (* common/peer.rs *)
   cd_enc := [("start", FU64); ("length", FU64); ("nodes", FNodes); ("additional_nodes", FNodes); ("signature", FBytes)];
   cd_dec_types := [FU64; FU64; FNodes; FNodes; FBytes];
   cd_ctor := ["start"; "length"; "nodes"; "additional_nodes"; "signature"] |}.
+
+(* the oplog codecs of /repo/src/oplog/entry.rs and /repo/src/oplog/header.rs (property C06); OplogTie.v ties them to
+   Oplog.v. Entry: for encoded_size / encode / decode separately, the sections in source order, each with the flag
+   bit that announces it (encode: `flags |= N`; decode: `flags & N != 0`). *)
+Definition src_EntryTreeUpgrade : option codec_desc := Some {|   (* oplog/entry.rs *)
+  cd_size := [("fork", FU64); ("ancestors", FU64); ("length", FU64); ("signature", FBytes)];
+  cd_enc := [("fork", FU64); ("ancestors", FU64); ("length", FU64); ("signature", FBytes)];
+  cd_dec_types := [FU64; FU64; FU64; FBytes];
+  cd_ctor := ["fork"; "ancestors"; "length"; "signature"] |}.
+Definition src_HeaderTree : option codec_desc := Some {|   (* oplog/header.rs *)
+  cd_size := [("fork", FU64); ("length", FU64); ("root_hash", FBytes); ("signature", FBytes)];
+  cd_enc := [("fork", FU64); ("length", FU64); ("root_hash", FBytes); ("signature", FBytes)];
+  cd_dec_types := [FU64; FU64; FBytes; FBytes];
+  cd_ctor := ["fork"; "length"; "root_hash"; "signature"] |}.
+Definition src_HeaderHints : option codec_desc := Some {|   (* oplog/header.rs *)
+  cd_size := [("reorgs", FStrings); ("contiguous_length", FU64)];
+  cd_enc := [("reorgs", FStrings); ("contiguous_length", FU64)];
+  cd_dec_types := [FStrings; FU64];
+  cd_ctor := ["reorgs"; "contiguous_length"] |}.
+Definition src_Entry : option flagged_desc := Some {|   (* oplog/entry.rs *)
+  fd_size_lead := 1%N;
+  fd_size := [("user_data", FStrings); ("tree_nodes", FNodes); ("tree_upgrade", FRec "EntryTreeUpgrade"); ("bitfield", FRec "BitfieldUpdate")];
+  fd_enc := [("user_data", 1%N, FStrings); ("tree_nodes", 2%N, FNodes); ("tree_upgrade", 4%N, FRec "EntryTreeUpgrade"); ("bitfield", 8%N, FRec "BitfieldUpdate")];
+  fd_dec := [("user_data", 1%N, FStrings); ("tree_nodes", 2%N, FNodes); ("tree_upgrade", 4%N, FRec "EntryTreeUpgrade"); ("bitfield", 8%N, FRec "BitfieldUpdate")] |}.
+Definition src_BitfieldUpdate : option codec_desc := Some {|   (* oplog/entry.rs *)
+  cd_size := [("start", FU64); ("length", FU64)];
+  cd_enc := [("start", FU64); ("length", FU64)];
+  cd_dec_types := [FU64; FU64];
+  cd_ctor := ["start"; "length"] |}.
+Definition src_BitfieldUpdate_flag : option flagbyte_desc := Some {|   (* oplog/entry.rs *)
+  fb_size := 1%N;
+  fb_enc := [("drop", 1%N)];
+  fb_dec := [("drop", 1%N)] |}.
+Definition src_Header : option codec_desc := Some {|   (* oplog/header.rs *)
+  cd_size := [("key", FHash32); ("manifest", FRec "Manifest"); ("key_pair", FRec "PartialKeypair"); ("user_data", FStrings); ("tree", FRec "HeaderTree"); ("hints", FRec "HeaderHints")];
+  cd_enc := [("key", FHash32); ("manifest", FRec "Manifest"); ("key_pair", FRec "PartialKeypair"); ("user_data", FStrings); ("tree", FRec "HeaderTree"); ("hints", FRec "HeaderHints")];
+  cd_dec_types := [FHash32; FRec "Manifest"; FRec "PartialKeypair"; FStrings; FRec "HeaderTree"; FRec "HeaderHints"];
+  cd_ctor := ["key"; "manifest"; "key_pair"; "user_data"; "tree"; "hints"] |}.
+Definition src_Header_lead : option lead_desc := Some {|   (* oplog/header.rs *)
+  hl_bytes := [1%N; 6%N];
+  hl_dec_skip := 2%N;
+  hl_size := 2%N |}.
